@@ -6,7 +6,7 @@
    - `instr_guard`: the side conditions of one instruction, on the state before it;
    - `step_guard`: one iteration of the machine on its head thread; `guards_along`: all iterations of a run that
      work on the lineage of one ghost path. *)
-From SLX Require Import Base gen.Constants gen.ValueSig gen.OpcodeTable SymVal Micro Disasm Word256 EvmSpec Fold VM.
+From SLX Require Import Base gen.Constants gen.ValueSig gen.OpcodeTable SymVal Micro Disasm Word256 EvmSpec Fold Evm VM Sim.
 Open Scope N_scope.
 
 (* "the built value is not culled" *)
@@ -18,6 +18,7 @@ Inductive okind :=
 | KUn (t : tag) (b : byte) (f : N -> N)
 | KPop | KPc | KCodeSize | KPush0 | KJumpDest | KStop | KMStore | KMLoad | KSLoad | KSStore | KJump | KJumpI
 | KHalt2 (t : tag) (b : byte) | KSelfDestruct
+| KEnv (t : tag) (b : byte)      (* pushes a value that is not a constant of the path: the EVM word is unknown (None) *)
 | KOther.
 
 (* which EVM instruction an opcode of the fragment is: constructor it builds, its byte, its Yellow-Paper function
@@ -61,6 +62,20 @@ Definition classify (o : opname) : okind :=
   | control_Return => KHalt2 T_Return 243
   | control_Revert => KHalt2 T_Revert 253
   | environment_SelfDestruct => KSelfDestruct
+  | environment_Address => KEnv T_Address 48
+  | environment_Origin => KEnv T_Origin 50
+  | environment_Caller => KEnv T_Caller 51
+  | environment_CallValue => KEnv T_CallValue 52
+  | environment_GasPrice => KEnv T_GasPrice 58
+  | environment_CoinBase => KEnv T_CoinBase 65
+  | environment_Timestamp => KEnv T_BlockTimestamp 66
+  | environment_Number => KEnv T_BlockNumber 67
+  | environment_Prevrandao => KEnv T_Prevrandao 68
+  | environment_GasLimit => KEnv T_GasLimit 69
+  | environment_ChainId => KEnv T_ChainId 70
+  | environment_SelfBalance => KEnv T_SelfBalance 71
+  | environment_BaseFee => KEnv T_BaseFee 72
+  | environment_Gas => KEnv T_Gas 90
   | _ => KOther
   end.
 
@@ -95,8 +110,16 @@ Definition op_guard (cfg : limits) (code : list instr) (st : vstate) (ip : N) (o
   | KJumpI => match stack st with _ :: _ :: _ => true | _ => false end
   | KHalt2 _ _ => match stack st with _ :: _ :: _ => true | _ => false end
   | KSelfDestruct => match stack st with _ :: _ => true | _ => false end
+  | KEnv t _ => depth_ok st && fits cfg (Node t [] [])
   | KOther => false
   end.
+
+(* bytes at which the reference EVM halts normally whatever the state: INVALID and the bytes unassigned in the
+   implementation's instruction set (the disassembler turns them into INVALID entries) *)
+Definition evm_halts (b : byte) : bool :=
+  (b =? 254)
+  || existsb (N.eqb b) [12;13;14;15;30;31;33;34;35;36;37;38;39;40;41;42;43;44;45;46;47;73;74;75;76;77;78;79;92;93;94]
+  || ((165 <=? b) && (b <=? 239)) || ((246 <=? b) && (b <=? 249)) || ((251 <=? b) && (b <=? 252)).
 
 Definition instr_guard (cfg : limits) (code : list instr) (st : vstate) (ip : N) (i : instr) : bool :=
   match i with
@@ -105,7 +128,7 @@ Definition instr_guard (cfg : limits) (code : list instr) (st : vstate) (ip : N)
   | IPush n d => depth_ok st && fits cfg (Known (push_word d))
   | IDup n => depth_ok st && (n <=? N.of_nat (length (stack st)))
   | ISwap n => n <? N.of_nat (length (stack st))
-  | IInvalid b => b =? 254          (* the designated INVALID instruction ends the path, like STOP *)
+  | IInvalid b => evm_halts b       (* INVALID and unassigned bytes end the path, like STOP *)
   | ILog _ => false
   end.
 
@@ -157,3 +180,59 @@ Fixpoint guards_along (code : list instr) (cfg : limits) (n : nat) (m : vm) (p :
       end
   end.
 
+
+(* ---- C08, converse direction: no reachable code is skipped ----
+   `fork_guard`: at a JUMPI the jump-taken outcome is not lost -- either the target validates and neither the
+   iteration limit at the target nor the fork limit suppresses the fork, or the target does not validate and the
+   reference EVM cannot take the jump either (the target denotes no word, or a word that is no valid destination).
+   (A target that denotes a valid destination but does not constant-fold, e.g. one loaded from storage, fails it.) *)
+Definition fork_guard (bytes : list byte) (code : list instr) (cfg : limits) (jt : list (N * N)) (t : thread) (i : instr) : bool :=
+  if is_jumpi i then
+    match stack (tstate t) with
+    | counter :: _ :: _ =>
+        match validate_jump constant_fold code counter with
+        | inl tg => negb (iter_limit cfg <=? count_of tg (bump (tip t) (tvis t))) && negb (fork_limit cfg <=? count_of tg jt)
+        | inr _ => match den counter with Some w => negb (valid_dest bytes w) | None => true end
+        end
+    | _ => true
+    end
+  else true.
+
+(* a JUMP that ends the path in both machines: its target does not validate (the thread is retired with an error)
+   and the reference EVM cannot take it either (stack underflow, no word, or a word that is no valid destination) *)
+Definition dead_jump_guard (bytes : list byte) (code : list instr) (st : vstate) (i : instr) : bool :=
+  match i with
+  | IOp o =>
+      match classify o with
+      | KJump =>
+          match stack st with
+          | counter :: _ =>
+              match validate_jump constant_fold code counter with
+              | inl _ => false
+              | inr _ => match den counter with Some w => negb (valid_dest bytes w) | None => true end
+              end
+          | [] => true
+          end
+      | _ => false
+      end
+  | _ => false
+  end.
+
+Definition step_guard2 (bytes : list byte) (code : list instr) (cfg : limits) (m : vm) (t : thread) : bool :=
+  match nth_error code (N.to_nat (tip t)) with
+  | Some i => (step_guard code cfg t && fork_guard bytes code cfg (v_jt m) t i) || dead_jump_guard bytes code (tstate t) i
+  | None => false
+  end.
+
+(* every iteration among the first n from m satisfies the guards, whichever thread it works on *)
+Fixpoint guards_all (bytes : list byte) (code : list instr) (cfg : limits) (n : nat) (m : vm) : bool :=
+  match n with
+  | O => true
+  | S n' =>
+      match vm_step constant_fold m with
+      | SRunning m' =>
+          (match v_queue m with t :: _ => step_guard2 bytes code cfg m t | [] => true end)
+          && guards_all bytes code cfg n' m'
+      | _ => true
+      end
+  end.
